@@ -187,6 +187,41 @@ def coq_cases_file_i(cases, impl_accepts):
     return "\n".join(lines) + "\n"
 
 
+def per_file_uniqueness_twins(rng, n):
+    """[(case as generated, twin)]: in the twin a native checkpoint repeats gate type and dependencies of an IMPORTED
+    checkpoint that a connection targets.  Uniqueness domains are per schema file, so the twin is as conformant as the
+    original; stitching the connection generates a checkpoint carrying the imported checkpoint's dependencies, which is
+    bookkeeping of the validator and no part of any document.  (The combined model of Model/Imports.v compares
+    composites across files, so the twin is judged on the implementation alone, against its sibling.)"""
+    import copy
+    out, tries = [], 0
+    while len(out) < n and tries < 200 * n:
+        tries += 1
+        case = gen_valid_i(rng, threads=False)
+        nat, nb = case["native"], case["builder"]
+        for imp in case["imports"]:
+            base = imp["base"]
+            targeted = {c["to"][1] for c in imp["conns"] if c["to"][0] == "checkpoint"}
+            cands = [c for c in imp["schema"]["checkpoints"] if c["ctx"] is None and c["id"] in targeted and all(d[0] == "cmp" for d in c["deps"])]
+            deps_ = [(aid, xid) for aid, xid in imp.get("dependents", [])
+                     if any(a["id"] == aid and a["promise"][1] < OFF for a in nat["actions"])]
+            if not cands or not deps_:
+                continue
+            c = rng.choice(cands)
+            aid, _ = rng.choice(deps_)
+            twin = {"native": copy.deepcopy(nat), "builder": nb, "imports": [dict(i, conns=copy.deepcopy(i["conns"])) for i in case["imports"]]}
+            a = next(x for x in twin["native"]["actions"] if x["id"] == aid)
+            cp = next(x for x in twin["native"]["checkpoints"] if x["id"] == a["dep"][1])
+            sh = lambda o: ("act", ("action", base + o[1][1]), o[2]) if o[0] == "act" else o
+            cp["deps"] = [("cmp", sh(d[1]), d[2], sh(d[3])) for d in c["deps"]]
+            cp["gate"] = c["gate"]
+            if S.has_duplicate_composite(twin["native"]):
+                continue
+            out.append((case, twin, {"import_base": base, "imported_checkpoint": c["id"], "native_checkpoint": cp["id"]}))
+            break
+    return out
+
+
 # ----------------------------------------------------------------------------------------------- single faults (C16)
 IMUT = {}
 
